@@ -976,3 +976,55 @@ class C14(Base):
             out.append(Case("o.nlerp.exact", a + b + [F(q, p + q)], family="oracle-orthogonal"))
             out.append(Case("o.nlerp.exact", a + a + [rng.rat()], family="oracle-identical"))
         return out
+
+
+@prop("C15")
+class C15(Base):
+    title = "between_vectors and from_arc return the shortest rotation taking a onto b"
+    design_ref = "§6 C15"
+    ops = ["q.between_vectors", "b3.between_vectors", "b2.between_vectors", "q.from_arc", "q.from_arc_fb",
+           "q.from_axis_angle", "rad.turn_div_2", "v3.cross", "v2.perp_dot", "m2.from_angle"]
+    oracle_ops = ["o.arc.special"]
+    native_args = float_args("c15")
+    level_note = Base.level_note + FLOAT_NOTE + (" Which nearly parallel/antiparallel inputs are treated as exactly so is the "
+                                                 "approx relation's choice (a parameter of the model); nothing is claimed inside that allowance.")
+
+    def families(self, rng, tier):
+        out = []
+        reps = 6 if tier == "quick" else 200
+        xhat = [F(1), F(0), F(0)]
+        for _ in range(reps):
+            a, b = rng.unit_vec3(), rng.unit_vec3()
+            na = [-x for x in a]
+            for op in ("q.between_vectors", "b3.between_vectors", "q.from_arc"):
+                out.append(Case(op, a + b, family="generic-unit"))
+                out.append(Case(op, a + a, family="parallel"))
+                out.append(Case(op, a + na, family="antiparallel"))
+                out.append(Case(op, xhat + [F(-1), F(0), F(0)], family="antiparallel-x"))   # forces the second cross
+            fb = rng.unit_vec3()
+            out.append(Case("q.from_arc_fb", a + na + fb, family="antiparallel-fallback"))
+            out.append(Case("q.from_arc_fb", a + b + fb, family="generic-fallback-unused"))
+            # lengths 1e-3 .. 1e3
+            la, lb = F(1, 1000) * rng.rng(1, 999), F(rng.rng(1, 1000))
+            out.append(Case("q.from_arc", [la * x for x in a] + [lb * x for x in b], family="lengths"))
+            out.append(Case("q.from_arc", [la * x for x in a] + [-lb * x for x in a], family="lengths-antiparallel"))
+            # nearly parallel within / outside the ulps allowance
+            eps = F(1, 2 ** 60)
+            out.append(Case("q.between_vectors", a + [a[0] + eps, a[1], a[2]], family="nearly-parallel"))
+            out.append(Case("q.between_vectors", a + [-a[0] + eps, -a[1], -a[2]], family="nearly-antiparallel"))
+            # 2-D clockwise and counter-clockwise pairs
+            a2, b2 = rng.unit_vec2(), rng.unit_vec2()
+            out.append(Case("b2.between_vectors", a2 + b2, family="2d"))
+            out.append(Case("b2.between_vectors", b2 + a2, family="2d"))
+            out.append(Case("b2.between_vectors", a2 + [-a2[0], -a2[1]], family="2d-opposite"))
+        out.append(Case("b2.between_vectors", [F(1), F(0), F(3, 5), F(-4, 5)], family="regression"))
+        return out
+
+    def oracle_cases(self, rng, tier):
+        out = []
+        k = 30 if tier == "quick" else 1500
+        for _ in range(k):
+            out.append(Case("o.arc.special", rng.unit_vec3(), family="oracle"))
+        for v in ([F(3, 5), F(4, 5), F(0)], [F(1), F(0), F(0)], [F(0), F(3, 5), F(-4, 5)], [F(0), F(0), F(1)]):
+            out.append(Case("o.arc.special", v, family="oracle-exact-opposite"))
+        return out
